@@ -476,21 +476,44 @@ def idiom_direct_oracle(p, o):
 
 # ---------------------------------------------------------------------------------------- run
 def run(ctx):
-    ctx.coq_props()
+    import time as _t
+    tm = {}
     rng = ctx.rng
     quick = ctx.tier == "quick"
 
     # ---- (3) static scan first (cheap)
     hits, new_hits, void_hits, scan_errs, nfiles = static_scan(ctx)
 
-    # ---- (2) tie for the model
+    # ---- (2) idiom programs for the model tie and (1) the differential: three driver processes in parallel
     progs = list(IDIOM_CORPUS)
     nprog = 400 if quick else 4000
     while len(progs) < nprog:
         progs.append(gen_program(rng))
-    iobs = ctx.run_impl("c18_impl.py", {"mode": "idioms", "programs": progs})
+    extra = []
+    rp = getattr(ctx, "replay", None)
+    if rp and isinstance(rp.get("replay", {}).get("case"), dict):
+        c = rp["replay"]["case"]
+        extra.append({"t": c["t"], "variant": c["variant"], "cseed": c["cseed"]})
+    nshard = 3 if quick else 6
+    base = {"mode": "auto", "master": ctx.seed, "k": 2 if quick else 12, "skip": sorted(THOROUGH_ONLY) if quick else [],
+            "single": sorted(THOROUGH_ONLY), "nshard": nshard}
+    payloads = [dict(base, shard=i, extra=extra if i == 0 else [], programs=progs if i == nshard - 1 else None) for i in range(nshard)]
+    t0 = _t.time()
+    with ThreadPoolExecutor(max_workers=nshard) as ex:
+        futs = [ex.submit(ctx.run_impl, "c18_impl.py", pl) for pl in payloads]
+        ctx.coq_props()                       # the theorems are re-checked while the drivers run
+        tm['coq_props'] = round(_t.time() - t0, 1)
+        outs = [f.result() for f in futs]
+    tm['drivers_and_props'] = round(_t.time() - t0, 1)
+    t0 = _t.time()
+    obs = [o for out in outs for o in out["obs"]]
+    listing = outs[0]["listing"]
+    registry = listing["registry"]
+    iobs = outs[-1]["idioms"]
+
     terms = [f"(({glist(p['tapes'], g_tspec)}, {glist(p['cmds'], g_cmd)}), {g_obs(o)})" for p, o in zip(progs, iobs)]
-    bad = ctx.coq_eval_cases("idioms", "From PLV Require Import Disc.AliasModel.", terms, "check_case")
+    bad = ctx.coq_eval_cases("idioms", "From PLV Require Import Disc.AliasModel.", terms, "check_case", chunk=100)
+    tm['coq_eval'] = round(_t.time() - t0, 1)
     ihist = Counter()
     for p, o in zip(progs, iobs):
         ihist["programs"] += 1
@@ -507,28 +530,6 @@ def run(ctx):
     for i in bad:
         ctx.violation("corr:" + json.dumps(progs[i], sort_keys=True), {"program": progs[i], "implementation": iobs[i]},
                       what="real QuantumScript aliasing behaviour differs from the proved heap model")
-
-    # ---- (1) the differential over all public tape transforms
-    listing = ctx.run_impl("c18_impl.py", {"mode": "list"})
-    registry = listing["registry"]
-    k = 3 if quick else 12
-    cases = []
-    rp = getattr(ctx, "replay", None)
-    if rp and isinstance(rp.get("replay", {}).get("case"), dict):
-        c = rp["replay"]["case"]
-        cases.append({"t": c["t"], "variant": c["variant"], "cseed": c["cseed"]})
-    for name, info in registry.items():
-        if quick and name in THOROUGH_ONLY:
-            continue
-        for v in range(info["variants"]):
-            nseeds = 1 if name in THOROUGH_ONLY else k
-            for j in range(nseeds):
-                cases.append({"t": name, "variant": v, "cseed": rng.randrange(10 ** 9) if j else 1000 + v})   # first seed fixed: regression corpus
-    nshard = 6
-    shards = [cases[i::nshard] for i in range(nshard)]
-    with ThreadPoolExecutor(max_workers=nshard) as ex:
-        outs = list(ex.map(lambda sh: ctx.run_impl("c18_impl.py", {"mode": "diff", "cases": sh}) if sh else [], shards))
-    obs = [o for out in outs for o in out]
 
     per = defaultdict(Counter)
     skipped = Counter()
@@ -572,7 +573,7 @@ def run(ctx):
         "evaluations": len(obs) + len(progs),
         "differential_cases": len(obs),
         "distinct_nontrivial": nontrivial,
-        "rule": "differential: every registry transform x variant x seeds (first seed fixed = regression corpus incl. the merge_rotations / "
+        "rule": "differential: every registry transform x variant x seeds (first seed of each variant fixed = regression corpus incl. the merge_rotations / "
                 "commute_controlled tapes of finding 5, others from VERIF_SEED); non-trivial = transform applied without raising and returned "
                 "new tape objects. idioms: corpus of the idioms found in the transforms + seeded random heap programs (4% dangling references).",
         "input_distribution": {"transforms_registered": len(registry), "transforms_exercised_ok": len(exercised),
@@ -584,6 +585,7 @@ def run(ctx):
         "static_scan": {"files": nfiles, "hits": [[h["file"], h["func"], h["kind"], h["stmt"]] for h in hits],
                         "new": len(new_hits), "guard_removed": len(void_hits), "parse_errors": scan_errs},
         "observation_exec_changes_input": dict(exec_changed),
+        "timing_s": tm,
         "per_transform": {t: dict(c) for t, c in sorted(per.items())},
     })
     if exec_changed:
